@@ -503,6 +503,31 @@ def ctor (es : List Elem) (base : Option FormatRec) : Except Err FormatRec := do
   let b ← createBuilder (Builder.empty base) es
   return .mk (match base with | some g => some g | none => b.base) (format b).own
 
+/-! ### Which element an OBJECT is
+
+The elements handed to `ArgsFormat(elements, base)` are objects; an object may be an instance of a
+user-defined subclass of a public element class (directly or several levels down, with mixins).
+`_create_builder_for_elements` asks `isinstance(element, C)` for the four public classes `C` in a
+fixed order, i.e. whether `C` occurs among the bases (the MRO) of the object's class; the first test
+that succeeds decides through which `add_*` the object goes, an object that passes none is skipped. -/
+
+inductive PubClass where
+  | commandName | commandOption | option | argument
+  deriving DecidableEq, Repr
+
+/-- the order of the `isinstance` tests -/
+def dispatchOrder : List PubClass := [.commandName, .commandOption, .option, .argument]
+
+/-- `mro` = the public element classes among the bases of `type(element)` (the class itself
+included, any order, repetitions allowed).  The class the object is added as, `none` = skipped. -/
+def dispatch (mro : List PubClass) : Option PubClass :=
+  dispatchOrder.find? (fun c => mro.contains c)
+
+/-- The element list `createBuilder` works on, for a list of objects of arbitrary classes: each
+object read through the public class its dispatch selects (`read o c`), others are `foreign`. -/
+def elemsOf {Obj : Type} (mro : Obj → List PubClass) (read : Obj → PubClass → Elem) (os : List Obj) : List Elem :=
+  os.map (fun o => match dispatch (mro o) with | some c => read o c | none => .foreign)
+
 /-! ### Queries -/
 
 inductive Query where
